@@ -23,12 +23,17 @@ RULE = ("a case = script of <= 6 steps, each a witness call or a hostile connect
         "Exception subclass: unserialisable attributes, raising __str__/__repr__, huge args) with up to 3 mutations {type, serializer "
         "id, flags, seq, data length, annotation length, swapped lengths, magic, version, tag, chunk length/id, truncation at any "
         "offset, extension, bit flip, compressed flag, oversize}, or pure garbage; ended by FIN or RST. Shards: server type x "
-        "COMMTIMEOUT {0, 0.5}. Non-trivial: some hostile message passes the tag/version prefix check or is sent after a successful "
+        "COMMTIMEOUT {0, 0.5}. Content part (enumerated): well-formed CONNECT / INVOKE messages in all four serializers whose handshake "
+        "data, argument, object or method name holds text that some parser behind the decoder will look at (Proxy / URI class dicts with "
+        "24..20000-character locations built from 8 repeat units x 11 tails, float and exception class dicts, 50..100000-fold nested "
+        "lists written by hand), sent to a daemon running in a process of its own. Non-trivial: some hostile message passes the tag/version prefix check or is sent after a successful "
         "handshake; distinct = distinct case JSON")
 ASSUMPTIONS = ["every hostile connection ends with a disconnect (a silent stalled client legitimately occupies a worker)",
                "MAX_MESSAGE_SIZE is 256 KiB in the daemon process so that boundary length fields do not allocate gigabytes",
                "COMMTIMEOUT shards: an idle witness may be dropped by the server's own timeout; then only 'never a wrong answer, reconnect works' is demanded",
-               "methods raise Exception subclasses only (not BaseException-only classes)"]
+               "methods raise Exception subclasses only (not BaseException-only classes)",
+               "content part: 'stopped' = no answer to the hostile request, or to a resident client's ping, or to a new client's handshake within 10 s "
+               "(normal latency about a millisecond; the daemon runs in its own process, is killed and replaced after a stall, and the shard gives up after 3 stalls)"]
 
 CEILING = 20.0
 LOCK = threading.Lock()
@@ -198,6 +203,17 @@ def _teardown():
 
 
 def run_case(case, servertype=None, commtimeout=None, keep=False, poolsize=None):
+    if case.get("part") == "content":
+        env = {"servertype": servertype or case.get("servertype", "thread"), "child": None}
+        try:
+            return run_content_case(case, env)
+        finally:
+            if env.get("child") is not None:
+                env["child"].kill()
+    return _run_case(case, servertype, commtimeout, keep, poolsize)
+
+
+def _run_case(case, servertype=None, commtimeout=None, keep=False, poolsize=None):
     from vlib import live
     from Pyro5 import errors
     servertype = servertype or case.get("servertype", "thread")
@@ -310,6 +326,188 @@ def run_case(case, servertype=None, commtimeout=None, keep=False, poolsize=None)
     return V
 
 
+# ------------------------------------------------------------------------------------------------
+# hostile CONTENT inside perfectly well-formed messages, against a daemon in a process of its own
+# (a payload that makes a parser run "forever" keeps the interpreter lock: an in-process harness would freeze with the daemon)
+# ------------------------------------------------------------------------------------------------
+CONTENT_CEILING = 10.0      # normal latency: a millisecond.  A daemon that answers nobody for this long has been stopped.
+UNITS = ["a", "a.", "ab-", "1", "a1.", "é", "0.", "a:"]
+TAILS = ["", " ", "/", "@", ":", "\n", "]", ":x", ".", " :5", "\x00"]
+
+
+def child_main(servertype):
+    """entry point of the daemon process: serve until stdin is closed"""
+    import sys
+    from vlib import live
+    live.quiet_logs()
+    S = live.Served(servertype)
+    S.daemon.register(_classes()(), "w")
+    addr = S.address()
+    sys.stdout.write("PORT %d\n" % addr[1])
+    sys.stdout.flush()
+    sys.stdin.read()
+    S.stop()
+
+
+class _Child(object):
+    def __init__(self, servertype):
+        import os
+        import subprocess
+        import sys
+        from vlib.driver import ROOT
+        self.proc = subprocess.Popen([sys.executable, "-c", "import sys; sys.path.insert(0, %r); from checks import c05_hostile as m; m.child_main(%r)" % (ROOT, servertype)],
+                                     stdin=subprocess.PIPE, stdout=subprocess.PIPE, stderr=subprocess.DEVNULL, cwd=ROOT, env=dict(os.environ))
+        line = self.proc.stdout.readline().decode()
+        if not line.startswith("PORT "):
+            self.kill()
+            raise RuntimeError("daemon process did not start: %r" % line)
+        self.address = ("127.0.0.1", int(line.split()[1]))
+        self.resident = None
+
+    def kill(self):
+        try:
+            self.proc.kill()
+        except Exception:
+            pass
+        try:
+            self.proc.wait(10)
+        except Exception:
+            pass
+        for f in (self.proc.stdin, self.proc.stdout):
+            try:
+                f.close()
+            except Exception:
+                pass
+
+
+def content_value(spec):
+    fam, n = spec["family"], spec["n"]
+    text = UNITS[spec.get("unit", 0) % len(UNITS)] * n + TAILS[spec.get("tail", 0) % len(TAILS)]
+    if fam == "proxy-uri":
+        return {"__class__": "Pyro5.client.Proxy", "state": ["PYRO:obj@" + text, [], [], [], "hello", None]}
+    if fam == "proxy-pyroname":
+        return {"__class__": "Pyro5.client.Proxy", "state": ["PYRONAME:" + text, [], [], [], "hello", None]}
+    if fam == "proxy-ipv6":
+        return {"__class__": "Pyro5.client.Proxy", "state": ["PYRO:obj@[" + text + "]:5", [], [], [], "hello", None]}
+    if fam == "uri-state":
+        return {"__class__": "Pyro5.core.URI", "state": ["PYRO", "obj", None, text, 5]}
+    if fam == "float":
+        return {"__class__": "float", "value": text}
+    if fam == "exception-args":
+        return {"__class__": "builtins.ValueError", "__exception__": True, "args": [text], "attributes": {text[:50]: text}}
+    if fam == "long-text":
+        return text
+    raise ValueError(fam)
+
+
+def _deep_payload(ser, n):
+    """n nested lists, written by hand (the library encoders themselves would recurse)"""
+    if ser == "json":
+        return ("[" * n + "]" * n).encode()
+    if ser == "serpent":
+        return b"# serpent utf-8 python3.2\n" + ("[" * n + "]" * n).encode()
+    if ser == "marshal":
+        return b"[\x01\x00\x00\x00" * n + b"N"
+    return b"\x91" * n + b"\xc0"
+
+
+def content_cases(ser):
+    for fam in ("proxy-uri", "proxy-pyroname", "proxy-ipv6", "uri-state", "float", "exception-args", "long-text"):
+        for n in (24, 30, 45, 400, 20000):
+            for unit in range(len(UNITS)):
+                for tail in range(len(TAILS)):
+                    if fam not in ("proxy-uri", "proxy-pyroname", "uri-state") and (unit > 2 or tail > 3):
+                        continue
+                    if n > 45 and (unit % 3 or tail % 3):
+                        continue
+                    for where in ("call-arg", "handshake"):
+                        yield {"part": "content", "ser": ser, "where": where, "family": fam, "n": n, "unit": unit, "tail": tail}
+    for n in (50, 190, 210, 990, 1100, 5000, 100000):
+        for where in ("call-arg", "handshake", "whole-payload"):
+            yield {"part": "content", "ser": ser, "where": where, "family": "deep", "n": n}
+    for n in (1000, 100000):
+        for where in ("object-name", "method-name"):
+            yield {"part": "content", "ser": ser, "where": where, "family": "long-text", "n": n, "unit": 0, "tail": 1}
+
+
+def run_content_case(case, env):
+    """env: {"servertype":..., "child": _Child or None}; the daemon process is replaced after a stall"""
+    from vlib import live
+    V = []
+
+    def viol(sig, what):
+        V.append(Violation("C05:" + sig, ("[%s, daemon in its own process] %s  case=%r" % (env["servertype"], what, case))[:900]))
+    if env.get("child") is None:
+        env["child"] = _Child(env["servertype"])
+    ch = env["child"]
+    if ch.resident is None:
+        ch.resident = live.RawPeer(ch.address, timeout=CONTENT_CEILING)
+        m = ch.resident.handshake("w")
+        if not (isinstance(m, dict) and m["type"] == wire.CONNECTOK):
+            raise RuntimeError("resident client could not connect: %r" % (m,))
+    ser, where, fam = case["ser"], case["where"], case["family"]
+    peer = live.RawPeer(ch.address, timeout=CONTENT_CEILING)
+    stalled = None
+    try:
+        if fam == "deep":
+            inner = _deep_payload(ser, case["n"])
+        if where == "handshake":
+            if fam == "deep":
+                data = inner if ser != "json" else inner      # the whole connect payload is the nested thing
+            else:
+                data = live.raw_dumps(ser, {"handshake": content_value(case), "object": "w"})
+            peer.send(wire.ref_encode(wire.CONNECT, 0, 0, live.SER_IDS[ser], data))
+        else:
+            m = peer.handshake("w", ser)
+            if not (isinstance(m, dict) and m["type"] == wire.CONNECTOK):
+                viol("content:handshake-refused", "plain handshake before the hostile request got %r" % (m,))
+                return V
+            if fam == "deep":
+                data = inner
+            elif where == "object-name":
+                data = live.call_payload(ser, content_value(case), "f", (1,), {})
+            elif where == "method-name":
+                data = live.call_payload(ser, "w", content_value(case), (1,), {})
+            else:
+                data = live.call_payload(ser, "w", "f", (content_value(case),), {})
+            if len(data) > 200 * 1024:
+                return V        # beyond the daemon's MAX_MESSAGE_SIZE: a different (covered) story
+            peer.send(wire.ref_encode(wire.INVOKE, 0, 1, live.SER_IDS[ser], data))
+        m = peer.read_message()
+        if m == ("timeout",):
+            stalled = "no answer (and no close) within %.0f s" % CONTENT_CEILING
+        # whatever the answer was: everybody else must still be served
+        if stalled is None:
+            ch.resident.send(wire.ref_encode(wire.PING, 0, 7, 42, b"ping"))
+            r = ch.resident.read_message()
+            if not (isinstance(r, dict) and r["type"] == wire.PING):
+                stalled = "the resident client's ping got %r" % (r,)
+        if stalled is None:
+            fresh = live.RawPeer(ch.address, timeout=CONTENT_CEILING)
+            try:
+                r = fresh.handshake("w")
+                if not (isinstance(r, dict) and r["type"] == wire.CONNECTOK):
+                    stalled = "a new client's handshake got %r" % (r,)
+            finally:
+                fresh.close()
+        if stalled is None and ch.proc.poll() is not None:
+            stalled = "the daemon process ended (exit code %r)" % ch.proc.returncode
+    except (OSError, RuntimeError) as x:
+        stalled = "harness could not talk to the daemon: %r" % (x,)
+    finally:
+        peer.close()
+    if stalled is not None:
+        viol("content:daemon-stalled:" + fam, "a well-formed %s message (%s) whose %s holds %s: %s" % (
+            ser, "CONNECT" if where == "handshake" else "INVOKE", where, fam, stalled))
+        try:
+            ch.resident.close()
+        except Exception:
+            pass
+        ch.kill()
+        env["child"] = None
+    return V
+
+
 def _passes_prefix(m):
     raw = build_msg(m)
     return len(raw) >= 6 and raw[:6] == b"PYRO\x01\xf6"
@@ -355,11 +553,29 @@ def sweep_cases():
 
 def SHARDS(tier):
     sh = [{"servertype": s, "commtimeout": t} for s in ("thread", "multiplex") for t in (0.0, 0.5)]
-    return sh * (2 if tier == "quick" else 4) + [{"servertype": "thread", "commtimeout": 0.0, "poolsize": 2}] * (1 if tier == "quick" else 3)
+    return sh * (2 if tier == "quick" else 4) + [{"servertype": "thread", "commtimeout": 0.0, "poolsize": 2}] * (1 if tier == "quick" else 3) + \
+        [{"part": "content", "servertype": s, "sers": sers} for s in ("thread", "multiplex") for sers in (["serpent", "json"], ["marshal", "msgpack"])]
 
 
 def run(ctx):
     sh = ctx.shard
+    if sh.get("part") == "content":
+        env = {"servertype": sh["servertype"], "child": None}
+        stalls = 0
+        try:
+            for ser in sh["sers"]:
+                for case in content_cases(ser):
+                    case = dict(case, servertype=sh["servertype"])
+                    v = run_content_case(case, env)
+                    ctx.observe(case, v, True, ["content", "content:" + case["family"], "where:" + case["where"], "ser:" + ser])
+                    if v:
+                        stalls += 1
+                        if stalls >= 3:
+                            return          # every stall costs the whole ceiling
+        finally:
+            if env.get("child") is not None:
+                env["child"].kill()
+        return
     st_, to, ps = sh.get("servertype", "thread"), sh.get("commtimeout", 0.0), sh.get("poolsize")
     try:
         if sh.get("index", 0) < 4 or (ps and sh.get("index", 0) in (8, 16)):        # the deterministic sweep runs once per combination
